@@ -526,8 +526,8 @@ impl OpOutcome {
     }
     pub fn short(&self) -> String {
         let s = format!("{self:?}");
-        if s.len() > 300 {
-            format!("{}…", &s[..300])
+        if s.chars().count() > 300 {
+            format!("{}…", s.chars().take(300).collect::<String>())
         } else {
             s
         }
